@@ -51,7 +51,6 @@ EXTENDS Integers, Sequences, FiniteSets, TLC
 CONSTANTS
     Scens,          \* sequence of scenario records
     MaxDist,        \* longest supported rebase path (reverts + applies): 144 in the code
-    MaxPool,        \* Leg M: the pool counts as full at this many transactions
     RevalAny,       \* TRUE: Revalidate is fully permissive; FALSE: canonical filter (stimulus graphs)
     EnAdd, EnLookup, EnBlocks, EnMine, EnRebase, EnTxSet,   \* which actions Next explores
     DevPartialAdd, DevSharedIndex, DevEphDrop, DevStaleParents
@@ -89,6 +88,7 @@ Ins(t)   == S.tx[t].ins
 Refs(t)  == S.tx[t].refs
 Outs(t)  == S.tx[t].outs
 Kind(t)  == S.tx[t].kind
+W(t)     == S.tx[t].w                   \* weight (Leg M: small integers; traces: the real encoded size)
 Need(t)  == Ins(t) \cup Refs(t)           \* the leaves whose proofs a v2 instance carries
 
 SeqSet(s) == {s[i] : i \in 1..Len(s)}
@@ -148,7 +148,13 @@ IdsState(st, ids, i) == IF i > Len(ids) THEN st ELSE IdsState(StepSt(st, ids[i])
 PoolIds       == SeqSet(pool1) \cup SeqSet(pool2)
 PoolState     == IdsState(St0, pool1 \o pool2, 1)
 Idle          == ~pc.busy
-Full          == Len(pool1) + Len(pool2) >= MaxPool
+\* The pool is full when the POOLED transactions weigh at least the limit (10 x MaxBlockWeight in
+\* the code).  Full is a function of the pooled transactions and nothing else: what a rejected
+\* submission weighed, or what was appended and rolled back again, must never count.
+RECURSIVE WeightOf(_, _)
+WeightOf(ids, i) == IF i > Len(ids) THEN 0 ELSE W(ids[i]) + WeightOf(ids, i + 1)
+PoolWeight    == WeightOf(pool1 \o pool2, 1)
+Full          == PoolWeight >= S.maxpool
 Fresh         == Idle /\ ~stale /\ ~Full       \* what every query sees after its revalidatePool()
 
 -----------------------------------------------------------------------------
@@ -415,7 +421,7 @@ Revalidate ==
         /\ IF RevalAny
              THEN \E p1 \in InjSeqs({t \in offered : Kind(t) = "v1"}), p2 \in InjSeqs({t \in offered : Kind(t) = "v2"}) :
                     /\ AllowedPool(p1, p2, K)
-                    /\ Full => Len(p1) + Len(p2) < MaxPool
+                    /\ Full => WeightOf(p1 \o p2, 1) < S.maxpool
                     /\ pool1' = p1 /\ pool2' = p2
              ELSE /\ K = mustKeep \/ Full
                   /\ pool1' = CanonPool.p1 /\ pool2' = CanonPool.p2
@@ -504,6 +510,9 @@ RetentionSatisfiable ==
                /\ AllowedPool(p1, p2, mustKeep)
 UtxoIsFold  == utxo = UtxoAt(tip)
 BlocksOnlyStale == [][tip' # tip => stale']_vars
+\* nothing leaves the must-keep set at a revalidation unless the POOLED transactions had reached the
+\* limit (seed C05-b: the weight of a rolled-back prefix of a rejected set made a small pool evict)
+EvictOnlyWhenFull == [][act'.op = "Revalidate" /\ mustKeep' # mustKeep => Full]_vars
 
 (* C14 *)
 AtomicityP(tol) ==
